@@ -30,6 +30,8 @@ def scripts(env):
         s["second_context"] = True
         out.append(s)
     out += [G.c18_handler(env.rng) for _ in range(env.scale(40, 600))]
+    out += [G.c18_obs_cancelled(env.rng) for _ in range(env.scale(40, 600))]
+    out += [G.c18_obs_consumer(env.rng) for _ in range(env.scale(40, 600))]
     return out
 
 
